@@ -19,6 +19,7 @@ import PCV.Model.Wire
 import PCV.Model.DrvUtil
 import PCV.Model.LinCode
 import PCV.Model.CalcT
+import PCV.Model.LinCodeTranscript
 namespace PCV
 namespace DrvLinCode
 open Driver LinCode Merkle
@@ -138,9 +139,201 @@ def handleLC (r : Req) : R String := do
       [("b", vBool b), ("indices", .l (os.map fun o => vNats o.indices))]
   | _ => .error "unknown-op"
 
+
+/-! ### `lincode.transcript`: the event log of `open` / `check` / default `batch_open` / `batch_check`
+
+  Digests are byte lists (`D = List Nat`); the commitment's root is the real one (it is absorbed).
+  The Merkle hashes are chosen so that `verifyPath` against a commitment holds iff the harness
+  found `Path::verify` true (`pathok`), and the paths carry their REAL leaf positions (`leafidx`), so
+  the position test of the model is run on the positions the model derives from the replayed oracle.
+  `calculate_t` is `CalcT.calcT lam d0 d1 · q hint` with `q` the field modulus; `hints=[[n,t],..]`.
+
+  common args: `kind= wf= lam= d0= d1= hints= sqf=[[..],..] sqb=[[..],..]` (recorded squeeze answers,
+  aligned by squeeze number: a field squeeze has `[]` in `sqb` and vice versa)
+  `side=0 point= n=` + per polynomial `nrows_i ncols_i next_i root_i mat_i ext_i`        → `log`, `k`
+  `side=1 point= ncomm= nval= nproof=` + `nrows_i ncols_i next_i root_i`, `value_i`,
+        `v_i pwf_i cols_i leafidx_i pathok_i ev_i ewf_i`                                  → `b`, `log`
+  `side=2 n=` + per polynomial `label_i nrows_i ncols_i next_i root_i mat_i ext_i`, `qs=` → `log`, `groups`
+  `side=3 ncomm= nproof=` + `label_i nrows_i ncols_i next_i root_i`, `qs= evals= pk=`,
+        per proof `v_i pwf_i cols_i leafidx_i pathok_i proot_i ev_i ewf_i`                → `b`, `log`
+  Events: `[5,bytes]` root, `[4,vec]` a vector of field elements, `[6,bytes]` index bytes,
+  `[10,n]` `squeeze_field_elements(n)`, `[11,n]` `squeeze_bytes(n)`. -/
+
+abbrev Dg := List Nat
+
+def vBytes (bs : List Nat) : Val := .l (bs.map .n)
+
+def vItem : Item (Fp p) Dg → Val
+  | .root r => .l [.n 5, vBytes r]
+  | .wfVec v => .l [.n 4, vFes v]
+  | .pointVec v => .l [.n 4, vFes v]
+  | .openVec v => .l [.n 4, vFes v]
+  | .idxBytes bs => .l [.n 6, vBytes bs]
+
+def vEv : SpongeEv (Item (Fp p) Dg) → Val
+  | .absorb a => vItem a
+  | .squeezeField n => .l [.n 10, .n n]
+  | .squeezeBytes n => .l [.n 11, .n n]
+
+def vLog (s : TLog (Fp p) Dg) : Val := .l (s.map vEv)
+
+/-- digests are byte lists; a leaf digest is empty, so the bottom layer returns the sibling: the
+recomputed root of a depth-one path is its `leafSibling` -/
+def tHashes : Hashes Dg := ⟨id, fun a b => if a.isEmpty then b else a, fun a b => if a.isEmpty then b else a, []⟩
+
+/-- a path with its real leaf position that verifies against `root` iff `pathOk` -/
+def tPath (root : Dg) (leafIdx : Nat) (pathOk : Bool) : Path Dg :=
+  ⟨if pathOk then root else [255], [], leafIdx⟩
+
+def toPoint (kind : Nat) (pt : List (Fp p)) : R (Point (Fp p)) :=
+  if kind = 0 then
+    match pt with
+    | [z] => pure (.uni z)
+    | _ => .error "univariate-point-must-have-one-entry"
+  else pure (.ml pt)
+
+def ltVecFp : List (Fp p) → List (Fp p) → Bool
+  | [], [] => false
+  | [], _ :: _ => true
+  | _ :: _, [] => false
+  | a :: as, b :: bs => decide (a.v < b.v) || (decide (a.v = b.v) && ltVecFp as bs)
+
+/-- `Ord` of the point type (`F` or `Vec<F>`; one request has points of one kind) -/
+def ltPoint : Point (Fp p) → Point (Fp p) → Bool
+  | .uni a, .uni b => decide (a.v < b.v)
+  | .ml a, .ml b => ltVecFp a b
+  | .uni _, .ml _ => true
+  | .ml _, .uni _ => false
+
+def getTP (r : Req) (tbl : List (List (Fp p) × Option (List (Fp p)))) : R (TParams (Fp p) Dg) := do
+  let wf ← asBool (← need r "wf")
+  let lam ← asNat (← need r "lam")
+  let d0 ← asNat (← need r "d0")
+  let d1 ← asNat (← need r "d1")
+  let hints ← asNatss (← need r "hints")
+  let hintOf (n : Nat) : Nat :=
+    match hints.find? (fun h => h.head? == some n) with
+    | some h => h.getD 1 0
+    | none => 0
+  pure { pp := { enc := tableEnc tbl, dims := fun _ => (0, 0), colHash := fun _ => [], hs := tHashes,
+                 checkWf := wf },
+         tOf := fun n => calcT lam d0 d1 n p (hintOf n) }
+
+def getRO (r : Req) : R (TRO (Fp p) Dg) := do
+  let sqf ← asFess (p := p) (← need r "sqf")
+  let sqb ← asNatss (← need r "sqb")
+  pure (Sponge.replayRO 0 sqf sqb)
+
+def getComm (r : Req) (i : Nat) : R (Comm Dg) := do
+  pure ⟨← asNat (← need r (key "nrows" i)), ← asNat (← need r (key "ncols" i)),
+        ← asNat (← need r (key "next" i)), ← asNats (← need r (key "root" i))⟩
+
+def getState (r : Req) (i : Nat) (c : Comm Dg) : R (State (Fp p) Dg) := do
+  let mat ← asFess (p := p) (← need r (key "mat" i))
+  let ext ← asFess (p := p) (← need r (key "ext" i))
+  pure ⟨⟨mat.length, c.nCols, mat⟩, ⟨ext.length, c.nExtCols, ext⟩, List.replicate c.nExtCols []⟩
+
+/-- proof `i`; `rootOf` is the root its paths were verified against -/
+def getProofT (r : Req) (i : Nat) (root : Dg) : R (Proof (Fp p) Dg) := do
+  let v ← asFes (p := p) (← need r (key "v" i))
+  let pwf ← asOptFes (p := p) (← need r (key "pwf" i))
+  let cols ← asFess (p := p) (← need r (key "cols" i))
+  let leafidx ← asNats (← need r (key "leafidx" i))
+  let pathok ← (← asNats (← need r (key "pathok" i))).mapM fun x => pure (x != 0)
+  pure ⟨⟨(leafidx.zip pathok).map fun (q, ok) => tPath root q ok, v, cols⟩, pwf⟩
+
+def getEncTable (r : Req) (nproof : Nat) : R (List (List (Fp p) × Option (List (Fp p)))) := do
+  let tbl ← (List.range nproof).mapM fun i => do
+    let v ← asFes (p := p) (← need r (key "v" i))
+    let pwf ← asOptFes (p := p) (← need r (key "pwf" i))
+    let ev ← match r.get? (key "ev" i) with
+      | some x => asOptFes (p := p) x
+      | none => pure none
+    let ewf ← match r.get? (key "ewf" i) with
+      | some x => asOptFes (p := p) x
+      | none => pure none
+    pure ([(v, ev)] ++ (match pwf with | some w => [(w, ewf)] | none => []))
+  pure tbl.flatten
+
+def getQueriesT (kind : Nat) (v : Val) : R (List (TraitDefault.Query (Point (Fp p)))) := do
+  let xs ← asList v
+  xs.mapM fun q => do
+    match ← asList q with
+    | [l, pl, pt] => pure (← asNats l, (← asNats pl, ← toPoint kind (← asFes pt)))
+    | _ => .error "query-must-be-[label,point_label,point]"
+
+def getEvalsT (kind : Nat) (v : Val) : R (List ((List Nat × Point (Fp p)) × Fp p)) := do
+  let xs ← asList v
+  xs.mapM fun e => do
+    match ← asList e with
+    | [l, pt, x] => pure ((← asNats l, ← toPoint kind (← asFes pt)), ← asFe x)
+    | _ => .error "evaluation-must-be-[label,point,value]"
+
+def chunksBy {α : Type} : List Nat → List α → List (List α)
+  | [], _ => []
+  | k :: ks, l => l.take k :: chunksBy ks (l.drop k)
+
+def handleTranscript (r : Req) : R String := do
+  let side ← asNat (← need r "side")
+  let kind ← asNat (← need r "kind")
+  let ro ← getRO (p := p) r
+  match side with
+  | 0 =>
+    let point ← toPoint kind (← asFes (p := p) (← need r "point"))
+    let n ← asNat (← need r "n")
+    let tp ← getTP (p := p) r []
+    let cs ← (List.range n).mapM fun i => getComm r i
+    let sts ← (List.range n).mapM fun i => do getState (p := p) r i (← getComm r i)
+    pure <| exceptReply (openAllT ro tp point cs sts []) fun (πs, s) =>
+      [("k", .n πs.length), ("log", vLog s),
+       ("vs", .l (πs.map fun π => vFes π.opening.v)),
+       ("leafidx", .l (πs.map fun π => vNats (π.opening.paths.map (·.leafIndex))))]
+  | 1 =>
+    let point ← toPoint kind (← asFes (p := p) (← need r "point"))
+    let ncomm ← asNat (← need r "ncomm")
+    let nval ← asNat (← need r "nval")
+    let nproof ← asNat (← need r "nproof")
+    let tp ← getTP (p := p) r (← getEncTable (p := p) r nproof)
+    let cs ← (List.range ncomm).mapM fun i => getComm r i
+    let vals ← (List.range nval).mapM fun i => do asFe (p := p) (← need r (key "value" i))
+    let πs ← (List.range nproof).mapM fun i =>
+      getProofT (p := p) r i (match cs[i]? with | some c => c.root | none => [])
+    pure <| exceptReply (checkAllT ro tp point cs vals πs []) fun (b, s) =>
+      [("b", vBool b), ("log", vLog s)]
+  | 2 =>
+    let n ← asNat (← need r "n")
+    let tp ← getTP (p := p) r []
+    let cs ← (List.range n).mapM fun i => getComm r i
+    let sts ← (List.range n).mapM fun i => do getState (p := p) r i (← getComm r i)
+    let labels ← (List.range n).mapM fun i => do asNats (← need r (key "label" i))
+    let qs ← getQueriesT (p := p) kind (← need r "qs")
+    let polys : List (LPoly (Fp p)) := labels.map fun l => ⟨l, []⟩
+    let comms : List (LComm Dg) := (labels.zip cs).map fun (l, c) => ⟨l, c⟩
+    pure <| exceptReply
+      (TraitDefault.batchOpen ltPoint (fun (x : LPoly (Fp p)) => x.label) (openF ro tp) polys sts comms qs
+        ([] : TLog (Fp p) Dg)) fun (πss, s) =>
+      [("groups", vNats (πss.map (·.length))), ("log", vLog s)]
+  | 3 =>
+    let ncomm ← asNat (← need r "ncomm")
+    let nproof ← asNat (← need r "nproof")
+    let tp ← getTP (p := p) r (← getEncTable (p := p) r nproof)
+    let cs ← (List.range ncomm).mapM fun i => getComm r i
+    let labels ← (List.range ncomm).mapM fun i => do asNats (← need r (key "label" i))
+    let comms : List (LComm Dg) := (labels.zip cs).map fun (l, c) => ⟨l, c⟩
+    let qs ← getQueriesT (p := p) kind (← need r "qs")
+    let evals ← getEvalsT (p := p) kind (← need r "evals")
+    let pk ← asNats (← need r "pk")
+    let πs ← (List.range nproof).mapM fun i => do
+      getProofT (p := p) r i (← asNats (← need r (key "proot" i)))
+    pure <| exceptReply
+      (TraitDefault.batchCheck ltPoint (fun (c : LComm Dg) => c.label) (checkF ro tp) comms qs evals
+        (chunksBy pk πs) ([] : TLog (Fp p) Dg)) fun (b, s) => [("b", vBool b), ("log", vLog s)]
+  | _ => .error "unknown-side"
+
 /-- `none` = not an op of this module -/
 def handle (p : Nat) (r : Req) : Option (Except String String) :=
-  if r.op.startsWith "lincode." then some (handleLC (p := p) r) else none
+  if r.op == "lincode.transcript" then some (handleTranscript (p := p) r)
+  else if r.op.startsWith "lincode." then some (handleLC (p := p) r) else none
 
 end DrvLinCode
 end PCV
